@@ -53,6 +53,7 @@ let () =
   try while true do
     let l = input_line stdin in
     match String.split_on_char ' ' l with
+    | ["parse"] -> (match parse_request [] with Ok r -> print_endline (show_req r) | Err _ -> print_endline "ERR" | Panic -> print_endline "PANIC")
     | ["parse"; h] ->
       (match parse_request (bytes_of_hex h) with
        | Ok r -> print_endline (show_req r) | Err _ -> print_endline "ERR" | Panic -> print_endline "PANIC")
@@ -104,6 +105,20 @@ let () =
       (match split_array (bytes_of_hex h) with
        | AOk items -> print_endline ("OK " ^ String.concat ";" (List.map hex_of_bytes items))
        | AErr -> print_endline "ERR" | APanicUtf8 -> print_endline "PANIC")
+    | ["reqrt"; m; u; v; hs; bd] | ["reqrt"; m; u; v; hs; bd; _] ->
+      let hl = if hs = "-" then [] else List.map (fun nv -> match String.split_on_char ':' nv with [n; v] -> { hname = bytes_of_hex n; hvalue = bytes_of_hex v } | [n] -> { hname = bytes_of_hex n; hvalue = [] } | _ -> failwith "hdr") (String.split_on_char ';' hs) in
+      let r = { method0 = bytes_of_hex m; uri = bytes_of_hex u; version = bytes_of_hex v; headers = hl; body = bytes_of_hex bd } in
+      let g = generate r in
+      Printf.printf "G %s | %s\n" (hex_of_bytes g) (match parse_request g with Ok r2 -> show_req r2 | Err _ -> "ERR" | Panic -> "PANIC")
+    | ["reqrt"; m; u; v; hs] ->
+      let hl = if hs = "-" then [] else List.map (fun nv -> match String.split_on_char ':' nv with [n; v] -> { hname = bytes_of_hex n; hvalue = bytes_of_hex v } | [n] -> { hname = bytes_of_hex n; hvalue = [] } | _ -> failwith "hdr") (String.split_on_char ';' hs) in
+      let r = { method0 = bytes_of_hex m; uri = bytes_of_hex u; version = bytes_of_hex v; headers = hl; body = [] } in
+      let g = generate r in
+      Printf.printf "G %s | %s\n" (hex_of_bytes g) (match parse_request g with Ok r2 -> show_req r2 | Err _ -> "ERR" | Panic -> "PANIC")
+    | ["gethdr"; hs; n] ->
+      let hl = if hs = "-" then [] else List.map (fun nv -> match String.split_on_char ':' nv with [n; v] -> { hname = bytes_of_hex n; hvalue = bytes_of_hex v } | [n] -> { hname = bytes_of_hex n; hvalue = [] } | _ -> failwith "hdr") (String.split_on_char ';' hs) in
+      let r = { method0 = []; uri = []; version = []; headers = hl; body = [] } in
+      (match get_header r (bytes_of_hex n) with Some h -> print_endline ("SOME " ^ hex_of_bytes h.hvalue) | None -> print_endline "NONE")
     | ["b64e"; h] -> (match encode (bytes_of_hex h) with Some t -> print_endline ("OK " ^ hex_of_bytes t) | None -> print_endline "ERR")
     | ["b64d"; h] -> (match decode (bytes_of_hex h) with Some t -> print_endline ("OK " ^ hex_of_bytes t) | None -> print_endline "ERR")
     | ["b64e"] -> print_endline "OK "
